@@ -6,6 +6,7 @@ pub fn gen_case(profile: &str, rng: &mut Rng, out: &mut String) -> bool {
         "C01" => super::c01::gen_case(rng, out, false),
         "C07" => super::c01::gen_case(rng, out, true),
         "C17" => super::c17::gen_case(rng, out),
+        "C19" => super::c19::gen_case(rng, out),
         "C20" => super::c20::gen_case(rng, out),
         _ => return false,
     }
